@@ -16,7 +16,6 @@ Sentence 3  load_as_concatenated == concatenation, in file order, of the individ
 Every case that writes files does so in its own tempfile.mkdtemp() directory which is
 removed in a `finally`.
 """
-import math
 import os
 import shutil
 import tempfile
@@ -44,7 +43,9 @@ RULE = ("HDF5 clauses: Hypothesis draws a RaggedArray (1..12 rows, sometimes 98.
         "keys -> [rows[j] for j in K] where the key of row j is the j-th node PyTables lists in the file. "
         "Non-trivial: roundtrip >= 10 rows (two-digit keys) or rows of different lengths or multi-dimensional "
         "elements; stride s>=2 with a length not divisible by s and a length > s; keys a proper or permuted subset "
-        "of >= 2 keys. Bulk clauses: 1..8 synthetic trajectories (3..10 atoms, 1..40 frames, often 1 frame after "
+        "of >= 2 keys. striped_h5 / striped_npy: the same arrays (resp. 1..5 .npy files of 1..20 rows) read through "
+        "mpi.io.load_h5_as_striped / load_npy_as_striped in the serial world, oracle = concatenated strided rows. "
+        "Bulk clauses: 1..8 synthetic trajectories (3..10 atoms, 1..40 frames, often 1 frame after "
         "striding) written as .h5 (xtc/dcd in thorough), stride, atom_indices, kwargs vs per-file args list (per-file "
         "stride and selection), lengths hint on/off, processes in {None,1,2,3,8,16}, direct call or through "
         "mpi.io.load_trajectory_as_striped, per-file delays injected by replacing enspara.util.load.md with a proxy "
@@ -888,21 +889,21 @@ def exhaustive_strides(tier, shard, nshards):
 
 
 CLAUSES = [
-    Clause("roundtrip", roundtrip_case(), run_roundtrip, quick=320, thorough=4000,
+    Clause("roundtrip", roundtrip_case(), run_roundtrip, quick=320, thorough=3000,
            exhaustive=exhaustive_rowcounts),
-    Clause("stride", ragged_case(min_rows=2, with_stride=True), run_stride, quick=240, thorough=4000,
+    Clause("stride", ragged_case(min_rows=2, with_stride=True), run_stride, quick=240, thorough=3000,
            exhaustive=exhaustive_strides),
-    Clause("stride_single", single_case(), run_stride_single, quick=200, thorough=3000),
-    Clause("keys", ragged_case(min_rows=2, with_keys=True), run_keys, quick=240, thorough=4000),
-    Clause("striped_h5", striped_case(), run_striped_h5, quick=160, thorough=3000),
-    Clause("roundtrip_big", roundtrip_case(big=True), run_roundtrip, quick=0, thorough=1500),
-    Clause("keys_big", ragged_case(min_rows=2, big=True, with_keys=True), run_keys, quick=0, thorough=1000),
-    Clause("bulk_concat", bulk_case(), run_bulk_concat, quick=72, thorough=480),
-    Clause("bulk_schedule", bulk_case(n_configs=2), run_bulk_schedule, quick=32, thorough=240),
-    Clause("bulk_concat_formats", bulk_case(formats=("h5", "h5", "xtc", "dcd")), run_bulk_concat, quick=0, thorough=240),
+    Clause("stride_single", single_case(), run_stride_single, quick=200, thorough=2000),
+    Clause("keys", ragged_case(min_rows=2, with_keys=True), run_keys, quick=240, thorough=3000),
+    Clause("striped_h5", striped_case(), run_striped_h5, quick=160, thorough=2000),
+    Clause("roundtrip_big", roundtrip_case(big=True), run_roundtrip, quick=0, thorough=1000),
+    Clause("keys_big", ragged_case(min_rows=2, big=True, with_keys=True), run_keys, quick=0, thorough=600),
+    Clause("bulk_concat", bulk_case(), run_bulk_concat, quick=72, thorough=400),
+    Clause("bulk_schedule", bulk_case(n_configs=2), run_bulk_schedule, quick=32, thorough=200),
+    Clause("bulk_concat_formats", bulk_case(formats=("h5", "h5", "xtc", "dcd")), run_bulk_concat, quick=0, thorough=200),
     Clause("bulk_schedule_formats", bulk_case(formats=("h5", "h5", "h5", "xtc"), n_configs=2), run_bulk_schedule,
-           quick=0, thorough=120),
-    Clause("striped_npy", npy_case(), run_striped_npy, quick=80, thorough=1500),
+           quick=0, thorough=100),
+    Clause("striped_npy", npy_case(), run_striped_npy, quick=80, thorough=1000),
 ]
 
 
@@ -930,4 +931,10 @@ def match_single_node_stride(case, exc):
     return "entry" in case and case.get("stride", 1) > 1 and isinstance(exc, Violation)
 
 
-MATCHERS = {"equal_multidim_rows": match_equal_multidim_rows, "single_node_stride": match_single_node_stride}
+def match_npy_stride(case, exc):
+    """load_npy_as_striped with stride > 1 trips its own `assert end == len(local_data)`."""
+    return "rows" in case and "tail" in case and case.get("stride", 1) > 1 and type(exc) is AssertionError
+
+
+MATCHERS = {"equal_multidim_rows": match_equal_multidim_rows, "single_node_stride": match_single_node_stride,
+            "npy_stride": match_npy_stride}
